@@ -527,6 +527,12 @@ class Interp:
                 st.assign(f"popped({c})", popped)
             else:
                 st.forget_all(f"popped({c})")
+            if op in ("pop", "remove"):
+                # removing from an empty container raises: the fall-through had an element
+                st.add_ineq(Lin.sym(L) - ONE)
+                if st.bottom or st.infeasible():
+                    st.bottom = True
+                    return NONE
             st.assign(L, Lin.sym(L) - ONE)
             for t in tops:
                 st.forget_all(t)
